@@ -202,6 +202,34 @@ func genC17(seed int64, tier string) []caseOut {
 			NonTri: fmt.Sprintf("%x", hh[:8]),
 		})
 	}
+	// requests whose delta comes up to the protocol's limit (1700 bytes): the DID grows beyond 2500
+	// characters, which is no limit of its own - every one of them resolves; one byte more is refused
+	{
+		sp := defaultSpec("create", r)
+		sp.kind = "Ed25519"
+		mk := func(pad int) builtReq {
+			sp.patches = A{M{"action": "add-services", "services": A{docService("svc1", "T", "https://example.com/"+strings.Repeat("a", pad))}}}
+			return buildReq(sp, r, []uint{18})
+		}
+		base := mk(0)
+		deltaLen := len(jcs(base.request["delta"]))
+		for _, target := range []int{1500, 1620, 1640, 1660, 1670, 1680, 1690, 1699, 1700} {
+			b := mk(target - deltaLen)
+			did := ns + ":" + b.suffix + ":" + b64(b.bytes)
+			res, ok, panicked := resolveImpl(h, did)
+			expect := target <= 1700
+			variant := fmt.Sprintf("(mk_lfv %s %s %s)", cStr(did), optJSON(res, ok), cBool(expect))
+			hh := sha256.Sum256(b.bytes)
+			out = append(out, caseOut{
+				Coq: fmt.Sprintf("(mk_c17 %s %s %s %s %s [%s] [] false true false)", urlOracle(map[string]interface{}(b.request)), cStr(ns), cStr(b.suffix),
+					cStr(b.hashes["recoveryCommitment"]), cStr(b.hashes["updateCommitment"]), variant),
+				Rec: map[string]interface{}{"did": did, "delta_bytes": len(jcs(b.request["delta"])), "did_length": len(did), "impl_resolved": ok, "impl_panicked": panicked,
+					"expect_resolve": expect},
+				Label:  fmt.Sprintf("longform:near-limit,delta-%d", target),
+				NonTri: fmt.Sprintf("%x", hh[:8]),
+			})
+		}
+	}
 	// VDR.Create determinism and Create -> Read
 	vdr, verr := sidetreelongform.New()
 	if verr == nil {
